@@ -121,7 +121,18 @@ def run(ctx):
                     return [z for y in x[1] for z in flat(y)]
                 return [x]
 
-            own = all(x[0] == "field" and x[2] == "handle" for x in flat(a))
+            def own_alt(x):
+                # the handle's own Arc, or the very Arc a failed try_unwrap handed back (possibly through map_err)
+                if x[0] == "field" and x[2] == "handle":
+                    return True
+                if x[0] == "cycle":
+                    return True
+                if x[0] == "field" and strip_sym(x[1])[0] == "downcast" and strip_sym(x[1])[2] == "Err":
+                    return True
+                return False
+
+            alts_ = flat(a)
+            own = all(own_alt(x) for x in alts_) and any(x[0] == "field" and x[2] == "handle" and sym_arg(sym_through(x[1])) is not None for x in alts_)
             ret = strip_sym(sy.local(0))
             alts = ret[1] if ret[0] == "phi" else [ret]
             def is_try(y):
